@@ -87,7 +87,7 @@ CHECKS = {
    note=TRUST + '; fairness: a retried RPC answers after at most the fault budget of consecutive errors; timers eventually fire; JSON layer outside.'),
  'C14': dict(category='model_checking',
    text='Lock discipline on every path: no RPC call, timer or blocking send is started while the payments mutex is held (2 symbolic HTLCs; extra HTLCs while paying). Two payments with distinct symbolic hashes: '
-        'payment A frozen at each of its first 5 RPCs or on its timer, payment B still settles with its own preimage; every datastore key of a lifecycle names its own hash; the fee budget of B comes from B only.',
+        'payment A frozen at each of its first 5 RPCs or on its timer, payment B still settles with its own preimage; every datastore key of a lifecycle names its own hash; the fee budget of B comes from B only. Lock discipline also with one RPC fault (fresh and restart path) and with the block watcher\'s height poll in flight.',
    design='4/C14', technique='symbolic execution of the real async stack from MIR under an explicit-state scheduler with partial-order reduction; SMT decides data; native replay over a fake node',
    note=TRUST + '; quick tier: B arrives once A is stuck (thorough: free interleaving); 1 HTLC per hash.'),
  'C02': dict(category='model_checking',
@@ -109,7 +109,7 @@ CHECKS = {
  'C09': dict(category='model_checking',
    text='Full stack from MIR over consecutive manager lifetimes on one node model: a funded HTLC is interrupted by one crash at any point, or by one datastore write that is rejected or applied-but-reported-failed; '
         'leftover parts resolve arbitrarily; then up to two fully funded retries run against a cooperative node. Violation = no retry is settled (and in particular a failing retry leaves the durable state '
-        'exactly as it found it, the decidable form of "permanently").',
+        'exactly as it found it, the decidable form of "permanently"). Also retries that arrive in two parts, one after the other, after a crash during pay.',
    design='4/C09', technique='symbolic execution of the real async stack from MIR under an explicit-state scheduler with partial-order reduction; SMT decides data; native replay over a fake node',
    note=TRUST + '; bounds: 1 crash or 1 write fault (thorough: both), 2 retries, 1 part.'),
  'C10': dict(category='model_checking',
